@@ -175,13 +175,32 @@ class Anchors:
         return self.cached("actionop", f)
 
     @property
+    def send_wrappers(self):
+        """all methods of the sender wrapper that perform crossbeam sends"""
+        return self.cached("send_wrappers", lambda: [b for b in self.methods_of(self.sender_adt["path"].split("::")[-1]) if any(s.ck in CB_SEND for s in self.p.sites(b))])
+
+    @property
     def send_wrapper(self):
-        """the sender wrapper's method that performs crossbeam sends"""
+        """the sender wrapper's enqueue method: the one the store's dispatch entry point uses"""
         def f():
-            hits = [b for b in self.methods_of(self.sender_adt["path"].split("::")[-1]) if any(s.ck in CB_SEND for s in self.p.sites(b))]
-            if len(hits) != 1:
-                raise AnchorMissing("send wrapper (found %d)" % len(hits))
-            return hits[0]
+            hits = self.send_wrappers
+            if len(hits) == 1:
+                return hits[0]
+            if not hits:
+                raise AnchorMissing("send wrapper (found 0)")
+            try:
+                d = self.method("StoreImpl", "dispatch")
+            except AnchorMissing:
+                raise AnchorMissing("send wrapper (found %d, no dispatch entry to choose)" % len(hits))
+            used = []
+            for s in self.p.sites(d):
+                cb = self.p.callee_body(s)
+                if cb is not None and any(cb.path == h.path for h in hits):
+                    used.append(cb)
+            used = list({u.path: u for u in used}.values())
+            if len(used) != 1:
+                raise AnchorMissing("send wrapper (found %d, %d used by dispatch)" % (len(hits), len(used)))
+            return used[0]
         return self.cached("send_wrapper", f)
 
     @property
